@@ -403,11 +403,13 @@ def walk(elt, B, ops, items, stats=None):
             elif d is not None:
                 sc = 1.0
                 for r in ref.D: sc *= float(sum(abs(t) for t in r))
-                if elt == 'f64': d = float(d)
                 if isfinite(sc) and sc < 1e300:
+                    if elt == 'f64': d = float(d)          # |det| <= product of the row norms (Hadamard): in range here
                     if not (isfinite(x) and abs(x - d) <= 1e-9 * sc + 1e-300):
                         return "%s: determinant %r, dense twin has %r (row-norm product %g)" % (what, x, d, sc)
                     bump("det-float")
+                else: bump("det-float-unjudged (row-norm product >= 1e300 or not finite)")
+            else: bump("det-float-unjudged (non-finite entry in the dense twin)")
         elif kind == 'solve':
             x, pos = parse_items_vec(items, pos, elt)
             b = expect[1]; nn = ref.n; D = ref.D
